@@ -369,7 +369,11 @@ def run(ctx: Ctx) -> None:
     # binding self-test
     probe = Ctx(ctx.prop, ctx.tier, ctx.seed)
     probe.findings = []
-    c = json.loads(json.dumps(next(x for x in rcases if x["kind"] == "euler" and x["cs"][0] != [[1, 1], [0, 1]] and x["cs"][1] != [[1, 1], [0, 1]])))
+    def asym(x):  # a rotation that differs from its transpose (not the identity, not a half turn)
+        M_ = fl(F(x["M"]))
+        return max(abs(M_[i][j] - M_[j][i]) for i in range(len(M_)) for j in range(len(M_))) > 0.1
+
+    c = json.loads(json.dumps(next(x for x in rcases if x["kind"] == "euler" and x["cs"][0] != [[1, 1], [0, 1]] and x["cs"][1] != [[1, 1], [0, 1]] and asym(x))))
     c["M"] = [list(r) for r in zip(*c["M"])]  # transposed expectation
     check_rotation(probe, c, 0)
     if not probe.violations:
